@@ -61,6 +61,44 @@ func reachUnderF(start *ssa.BasicBlock, target func(in ssa.Instruction) bool, is
 	return walk(start)
 }
 
+// mustUnderF: on every path from start that is feasible when every value satisfying isV equals val (and whose edges are
+// not pruned), an instruction satisfying target is passed before the function returns.
+func mustUnderF(start *ssa.BasicBlock, target func(in ssa.Instruction) bool, isV func(ssa.Value) bool, val int64, prune func(b *ssa.BasicBlock, i int) bool) bool {
+	seen := map[*ssa.BasicBlock]bool{}
+	var walk func(b *ssa.BasicBlock) bool
+	walk = func(b *ssa.BasicBlock) bool {
+		if seen[b] {
+			return true
+		}
+		seen[b] = true
+		for _, in := range b.Instrs {
+			if target(in) {
+				return true
+			}
+			if _, isRet := in.(*ssa.Return); isRet {
+				return false
+			}
+		}
+		ifi := blockIf(b)
+		for i, s := range b.Succs {
+			if ifi != nil {
+				t, f := evalUnder(ifi.Cond, isV, val, 4)
+				if (i == 0 && !t) || (i == 1 && !f) {
+					continue
+				}
+			}
+			if prune != nil && prune(b, i) {
+				continue
+			}
+			if !walk(s) {
+				return false
+			}
+		}
+		return true
+	}
+	return walk(start)
+}
+
 // evalUnder: which truth values can the boolean cond take when every value satisfying isV equals val?
 // Handles comparisons with constants, negation, and the phis that `a || b` / `a && b` / a local
 // boolean variable compile to (an edge contributes only if its predecessor block is feasible).
@@ -275,6 +313,18 @@ func runC10(p *P, r *R) {
 			reachUnder(winStart, isNotifyCh.F, oldV, st, nil), true, "readers blocked in readMore are woken only through closeNotifyCh")
 		r.ob("R10.3", "(*Stream).close: a close that found the stream "+name+" reaches a close callback", p.pos(closeFn.Pos()),
 			reachUnder(winStart, isCb, oldV, st, nil), true, "")
+		// ... on *every* path on which callbacks are installed (whether the session is still alive or not: a session that
+		// died reports the close as remote, a live one as local — never as nothing)
+		isCbVal := func(v ssa.Value) bool {
+			c, ok := v.(*ssa.Call)
+			return ok && p.calleeName(&c.Call) == "(*Stream).getCallbacks"
+		}
+		okAll := mustUnderF(winStart, isCb, func(x ssa.Value) bool { return x == oldV }, st, func(b *ssa.BasicBlock, i int) bool {
+			ifi := blockIf(b)
+			return ifi != nil && relOn(ifi.Cond, i == 0, isCbVal, isNilConst) == "=="
+		})
+		r.ob("R10.3", "(*Stream).close: a close that found the stream "+name+" reports it through a close callback on every path with callbacks installed", p.pos(closeFn.Pos()), okAll, true,
+			"exactly one of OnLocalClose / OnRemoteClose per stream, also when the session died first")
 		r.ob("R10.3", "(*Stream).close: a close that found the stream "+name+" reaches the peer notification", p.pos(closeFn.Pos()),
 			reachUnder(winStart, isPeerNotify, oldV, st, nil), true, "the peer must observe end-of-stream")
 	}
@@ -489,4 +539,7 @@ func runC10(p *P, r *R) {
 	// left through the connection; close consults it): otherwise the peer sees end-of-stream before flushed data
 	// (shared with C07 R07.2-R07.4)
 	borrow(p, r, "C07", runC07, map[string]string{"R07.2": "R10.9", "R07.3": "R10.9", "R07.4": "R10.9"}, nil)
+	// R10.10 after Close every later operation fails — it does not crash: no allocation from the shared memory for a
+	// closed stream (shared with C14 R14.9)
+	borrow(p, r, "C14", runC14, map[string]string{"R14.9": "R10.10"}, nil)
 }
